@@ -41,12 +41,14 @@ def run_case(args):
     rng = random.Random(f"c15-{seed}-{idx}")
     engine = "disk" if rng.random() < 0.3 else "mem"
     mt = 4 if rng.random() < 0.3 else 0
+    # tiny row-set budgets: one INSERT ... SELECT then flushes several row-sets before it commits
+    layout = DISK_LAYOUTS[random.Random(f"c15-layout-{seed}-{idx}").choice([0, 2, 3])]
     res = dict(seed=seed, idx=idx, violations=[], injections=0, fired=0, failed=0, benign=0, not_fired=0,
                inconclusive=None, ops=set(), samples=[], distinct=[], dml=0)
     rl = None
     try:
         def fresh():
-            x = RL(engine, DISK_LAYOUTS[3], mt=mt)
+            x = RL(engine, layout, mt=mt)
             r2 = random.Random(f"c15-{seed}-{idx}-data")
             tabs, _ = setup(x, r2)
             return x, tabs
